@@ -29,7 +29,7 @@ impl Check for C05 {
 
 fn meta() -> Meta {
     Meta {
-        rule: "in-domain sessions biased to cursor commands (every parameter class, start columns incl. wrap-pending, rows above/inside/below the region, origin on/off, valid and invalid margin pairs, after height / width-only resizes), one character per call; for every CUU CUD CUF CUB CNL CPL VPR HPR BS CR HT CHT CBT, LF/IND/NEL/RI off the margins, CUP/HVP CHA/HPA VPA, DECSTBM and DECOM the observed cursor must equal the model's prediction and cells, wrap marks and scrollback must be unchanged; non-trivial = >= 1 target step; distinct = digests of strata sequences",
+        rule: "gigantic screens (10000..70000 columns or rows, 1 run in ~350) starting wrap-pending at the far right / on the last row, followed at once by a cursor function with an extreme count; in-domain sessions biased to cursor commands (every parameter class, start columns incl. wrap-pending, rows above/inside/below the region, origin on/off, valid and invalid margin pairs, after height / width-only resizes), one character per call; for every CUU CUD CUF CUB CNL CPL VPR HPR BS CR HT CHT CBT, LF/IND/NEL/RI off the margins, CUP/HVP CHA/HPA VPA, DECSTBM and DECOM the observed cursor must equal the model's prediction and cells, wrap marks and scrollback must be unchanged; non-trivial = >= 1 target step; distinct = digests of strata sequences",
         assumptions: vec!["reference model is the trusted base; tolerated: cursor after an invalid DECSTBM, CBT from wrap-pending with a stop on the last column", "tab stops come from the model's hidden state (C18 rule across resizes)", "a run in which avt panics is abandoned"],
         real: vec!["avt::Vt", "avt::parser::Parser (lock-step)"],
         simulated: vec!["App", "Window"],
